@@ -2,6 +2,7 @@
 from __future__ import annotations
 
 from spverif.core.util import attempt, exc_sig, rand_uint, hist_len, rand_bytes
+from spverif.props import _views as V
 from spverif.ref import cfdp as R
 from . import _cfdp as C
 
@@ -25,6 +26,9 @@ import json
 
 
 ISO = C.Isolation()
+
+
+SUCCESS = {"cond": 0, "delivery": 0, "status": 2, "responses": [], "fault_id": None}
 
 
 def _trivial(cfg, p):
@@ -67,7 +71,11 @@ def build_via_setters(kind, cfg, p, seed):
         if p["progress"] < 2 ** 32:
             c0["large"] = r.getrandbits(1)
         steps = [("file_flag", lambda o: setattr(o, "file_flag", d.LargeFileFlag(cfg["large"])))]
-    obj = C.build(kind, c0, q)
+    if kind == "finished" and (p["delivery"], p["status"]) == (0, 2):
+        # the ready-made "everything went well" PDU as the starting point (delivery code and file status have no setters)
+        obj = X.FinishedPdu.success_pdu(C.lib_cfg(c0, 1)) if r.random() < 0.5 else X.FinishedPdu(C.lib_cfg(c0, 1), X.FinishedParams.success_params())
+    else:
+        obj = C.build(kind, c0, q)
     if r.random() < 0.5:
         obj.pack()
     r.shuffle(steps)
@@ -133,6 +141,25 @@ def k_pdu(ctx, kind, cfg, p, model_fed=False, via="ctor", seed=0):
     ok, g = attempt(X.PduFactory.from_raw, src)
     ctx.check("pdu.unpack", ok and type(g) is cls and C.norm_params(kind, C.get_params(kind, g)) == exp and bytes(g.pack()) == want, "generic_decode_differs",
               f"{kind}/idw={cfg['idw']}/seqw={cfg['seqw']}", case, observed=repr(g)[:200])
+    V.pdu_views(ctx, "pdu.delegated_views", pdu, want, hexp, case, f"{cls.__name__}/constructed")
+    for obj in (pdu, u):
+        extra = []
+        if kind == "finished":
+            fp = obj.finished_params
+            extra = [(int(fp.condition_code), int(fp.delivery_code), int(fp.file_status)) == (p["cond"], p["delivery"], p["status"])]
+        if hasattr(obj, "directive_param_field_len"):
+            extra.append(obj.directive_param_field_len == len(want) - hl - 1)      # documented: the data field without the directive code octet
+        if extra:
+            ctx.check("pdu.delegated_views", all(extra), "parameter_view_differs", kind, case)
+    V.pdu_views(ctx, "pdu.delegated_views", u, want, hexp, case, f"{cls.__name__}/unpacked")
+    if kind == "finished":
+        # the alternative constructors give a plain success PDU, whatever was done to earlier ones
+        for route, mk in (("success_pdu", lambda: X.FinishedPdu.success_pdu(C.lib_cfg(cfg, 1))), ("success_params", lambda: X.FinishedPdu(C.lib_cfg(cfg, 1), X.FinishedParams.success_params()))):
+            ok, sp_ = attempt(mk)
+            ok2, raw_s = attempt(lambda: bytes(sp_.pack())) if ok else (False, sp_)
+            want_s = C.ref_octets("finished", cfg, SUCCESS)
+            ctx.check("pdu.alt_constructor", ok and ok2 and raw_s == want_s and sp_.packet_len == len(want_s) and sp_.pdu_header.pdu_data_field_len == len(want_s) - hl,
+                      "success_pdu_is_not_a_plain_success_pdu", route, case, expected=want_s, observed=raw_s if ok2 else repr(raw_s))
     ISO.remember(u, want, kind, view=lambda u=u: (C.get_params(kind, u), C.hdr_fields(u.pdu_header), u.packet_len))
     ISO.recheck(ctx, "pdu.decoded_objects_independent", case)
 
@@ -302,7 +329,11 @@ def run(ctx):
     for j in range(ctx.n(4000, 300_000)):
         kind = r.choice(("eof", "finished", "metadata", "nak", "keep_alive"))
         cfg = C.rand_cfg(r)
-        k_pdu(ctx, kind, cfg, C.rand_params(r, kind, cfg), via="setters", seed=ctx.seed * 1_000_003 + ctx.shard[0] * 100_003 + j)
+        p = C.rand_params(r, kind, cfg)
+        if kind == "finished" and r.random() < 0.3:
+            p.update(delivery=0, status=2)
+            ctx.table("setter_start", "finished/success_pdu")
+        k_pdu(ctx, kind, cfg, p, via="setters", seed=ctx.seed * 1_000_003 + ctx.shard[0] * 100_003 + j)
     # PDUs with the CRC flag whose running CRC is exactly 0x0000 / 0xFFFF at the end of the header
     for target in (0x0000, 0xFFFF):
         for kind in C.DIRECTIVE_KINDS:
